@@ -31,7 +31,7 @@ META = {
         'quick': {'format:json': 100, 'format:yml': 100, 'with-model': 100, 'without-model': 150, 'class:false-flag': 100,
                   'class:tags': 100, 'class:attackers>=2': 50, 'class:name-sharing-attackers': 20, 'class:attacker-id-0': 30,
                   'class:entry-point-not-reached': 30, 'class:pruned': 50, 'class:extras': 50, 'nodes-compared': 3000,
-                  'class:viable-ne-necessary': 50},
+                  'class:viable-ne-necessary': 50, 'class:serialised-before-last-change': 50},
         'thorough': {'format:json': 15000, 'format:yml': 15000, 'with-model': 10000, 'without-model': 10000,
                      'class:name-sharing-attackers': 1000, 'nodes-compared': 400000},
     },
@@ -178,6 +178,9 @@ def _check_case(case, res, count=True):
             res.count('class:entry-point-not-reached')
         if any(op[0] == 'prune' for op in case['history']):
             res.count('class:pruned')
+        kinds = [op[0] for op in case['history']]
+        if 'serialise' in kinds and any(k in ('compromise', 'undo', 'node_compromise', 'analyse') for k in kinds[kinds.index('serialise') + 1:]):
+            res.count('class:serialised-before-last-change')
     d = tempfile.mkdtemp(prefix='c10-', dir=os.getcwd())
     try:
         path = os.path.join(d, 'g.' + case['fmt'])
@@ -218,6 +221,8 @@ def gen_case10(rng):
             hist.append([rng.choice(['compromise', 'compromise', 'undo', 'node_compromise']), rng.randrange(1000), rng.randrange(1000)])
         elif r < 0.45:
             hist.append(['add_attacker', rng.choice(['A', 'B', 'A']), rng.choice([None, 0, 5]), [rng.randrange(100) for _ in range(rng.randint(0, 2))], [rng.randrange(100) for _ in range(rng.randint(0, 3))]])
+        elif r < 0.5:
+            hist.append(['serialise'])       # an earlier serialisation must not influence a later one
         elif r < 0.6:
             hist.append(['analyse'])
         elif r < 0.7:
